@@ -502,7 +502,16 @@ pub fn run(ctx: &Ctx) -> usize {
 	let mut cfg = small.clone();
 	cfg.max_frames = ctx.n(8, 60);
 	for i in 0..nsl {
-		let m = finished_model(ctx.seed ^ (0x51BB + i as u64 * 15485863), &cfg);
+		let mut m = finished_model(ctx.seed ^ (0x51BB + i as u64 * 15485863), &cfg);
+		if i % 4 == 3 {
+			// real recorder shapes (real start block, metadata, multi-block gecko list)
+			if let Some((_, fm)) = fixture_model(&seeded_dna(ctx.seed ^ (0xF1C + i as u64 * 7919), 256)) {
+				m = fm;
+				if m.end == EndSpec::None {
+					m.end = EndSpec::One(vec![2; spec::end_size(m.v())]);
+				}
+			}
+		}
 		let comp = Comp::ALL[i % 3];
 		match make_job(&m, comp, false, ctx.seed ^ i as u64) {
 			Ok(j) => jobs.push(j),
